@@ -160,6 +160,19 @@ def run(ctx):
         g = b"\xb5\x62" + s + uh.calc_checksum(s)
         if g != f and uh.isvalid_checksum(g):
             ctx.fail("isvalid-accepts-bad", {"cmd": "ISVALID len=%d %s..." % (len(g), g[:16].hex())}, "False", "True")
+    # signed zeros and the nominal value of the float types, in both orders within one process (an encoder must not
+    # remember an earlier, numerically equal value)
+    for t in ("R004", "R008"):
+        w = int(t[1:4])
+        fmt = "<f" if w == 4 else "<d"
+        for seq in ((0.0, -0.0, 0.0), (-0.0, 0.0, -0.0), (0, -0.0), (-0.0, 0)):
+            for v in seq:
+                got = uh.val2bytes(v, t)
+                exp = struct.pack(fmt, v)
+                if got != exp:
+                    ctx.fail("float-encoding-depends-on-history", {"cmd": "V2B %s %r after %r" % (t, v, seq)}, exp.hex(), got.hex())
+        if uh.val2bytes(uh.nomval(t), t) != bytes(w):
+            ctx.fail("nomval-not-zero", {"cmd": "NOMVAL " + t}, "all zero bytes", uh.val2bytes(uh.nomval(t), t).hex())
     helper_pairs(ctx, rng)
     ctx.evaluations += len(ints)
 
